@@ -4,7 +4,7 @@
    [hexnum p] is the number written by the hex digits p (either case); [len] is the length as N;
    [Panic] is any Rust panic (slice bounds, expect, debug assertion), [OutOfFuel] a non-terminating loop. *)
 From GixV.Base Require Import Bytes BytesFacts Outcome.
-From GixV.C29 Require Import Tables Model Proofs ProofsCodec ProofsReader.
+From GixV.C29 Require Import Tables Model Proofs ProofsCodec ProofsReader ProofsSideband.
 Local Open Scope N_scope.
 
 (* ---- length prefixes --------------------------------------------------------------------------- *)
@@ -94,6 +94,37 @@ Theorem chunking_is_irrelevant : forall c1 c2 ds f ops,
     run_ops ops (set_fail_on_err (iter_new c1 ds) f) = Ok (xs, it1) /\
     run_ops ops (set_fail_on_err (iter_new c2 ds) f) = Ok (xs, it2).
 Proof. exact L_chunking_irrelevant. Qed.
+
+(* ---- the side-band reader ---------------------------------------------------------------------- *)
+
+(* WithSidebands (with or without progress handler, whatever the handler answers): for ANY byte stream
+   in ANY chunks and any sequence of read() calls with any buffer sizes, every call returns — the band
+   byte and the text of a progress message are never taken from an empty slice, the slice
+   parent.buf[pos..cap] is always in bounds — and the fill_buf loop terminates: fuel above the number of
+   unread bytes is always enough ([sb_reads] = that many [sb_read] calls in sequence). *)
+Theorem sideband_reader_never_panics : forall chunks ds f h sizes fuel,
+  bytes_of chunks < N.of_nat fuel ->
+  exists rs sb',
+    sb_reads fuel {| parent := set_fail_on_err (iter_new chunks ds) f; hnd := h; pos := 0; cap := 0 |} sizes
+    = Ok (rs, sb').
+Proof.
+  intros chunks ds f h sizes fuel H. apply L_sideband_never_panics; [apply iter_ok_ok2_new|].
+  unfold measure. cbn. rewrite N.add_0_r. exact H.
+Qed.
+
+(* the same from any iterator state reachable by read_line / peek_line (invariant [iter_ok2]) *)
+Theorem sideband_reader_never_panics_from : forall it h sizes fuel,
+  iter_ok2 it -> measure it < N.of_nat fuel ->
+  exists rs sb', sb_reads fuel {| parent := it; hnd := h; pos := 0; cap := 0 |} sizes = Ok (rs, sb').
+Proof. exact L_sideband_never_panics. Qed.
+
+(* the former panic: an empty progress message is delivered as an empty text *)
+Example empty_progress_is_delivered :
+  exists sb, sb_reads 20 {| parent := iter_new [bs "0005" ++ [x02] ++ bs "0006" ++ [x01] ++ bs "k0000"] [Flush];
+                            hnd := {| present := true; interrupt_at := None; calls := 0; log := [] |};
+                            pos := 0; cap := 0 |} [8; 8]
+             = Ok ([inl (bs "k"); inl []], sb) /\ log (hnd sb) = [(false, [])].
+Proof. eexists. split; vm_compute; reflexivity. Qed.
 
 (* ---- non-vacuity ------------------------------------------------------------------------------- *)
 
